@@ -698,4 +698,320 @@ theorem PlanShape.rk {c : PlanCfg} {a : PlanCli} {e : PlanEnv} {tr : List Ev} {c
         (by omega)) (by omega) (by omega) (by omega)
 
 
+/-! ### stop at the first failure -/
+
+/-- VCS invocations (copy of `Ev.isVcs` in Props/C10) -/
+def Ev.vcs : Ev → Bool
+  | .cmd _ => true
+  | .add _ => true
+  | _ => false
+
+/-- probes whose failure is swallowed (copy of `Ev.swallowed` in Props/C10) -/
+def Ev.swal : Ev → Bool
+  | .cmd n => n == "is_usable" || n == "ls_branches" || n == "show_remotes"
+  | _ => false
+
+def cnt (l : List Ev) : Nat := (l.filter Ev.vcs).length
+
+/-- in the log `l` (most recent first) every VCS invocation whose index is `f` is a swallowed
+    probe -/
+def okRev (f : Option Nat) : List Ev → Prop
+  | [] => True
+  | ev :: rest => okRev f rest ∧ (ev.vcs = true → f = some (cnt rest) → ev.swal = true)
+
+/-- the counter is the number of VCS invocations and no non-swallowed one has failed -/
+def Inv (e : PlanEnv) (s : PState) : Prop := s.n = cnt s.evs ∧ okRev e.failAt s.evs
+/-- everything before the most recent event is fine -/
+def Pre (e : PlanEnv) (s : PState) : Prop := okRev e.failAt s.evs.tail
+def Post (e : PlanEnv) (r : PState × Outcome) : Prop :=
+  (r.2 = .ok → Inv e r.1) ∧ (r.2 = .failed → Pre e r.1)
+
+theorem okRev.tail {f : Option Nat} {l : List Ev} (h : okRev f l) : okRev f l.tail := by
+  cases l with
+  | nil => exact h
+  | cons x l => exact h.1
+
+theorem Inv.pre {e : PlanEnv} {s : PState} (h : Inv e s) : Pre e s := h.2.tail
+
+theorem Post.of_inv {e : PlanEnv} {s : PState} {o : Outcome} (h : Inv e s) : Post e (s, o) :=
+  ⟨fun _ => h, fun _ => h.pre⟩
+
+theorem Post.of_pre {e : PlanEnv} {s : PState} (h : Pre e s) : Post e (s, .failed) :=
+  ⟨fun h' => Outcome.noConfusion h', fun _ => h⟩
+
+theorem cnt_cons (ev : Ev) (l : List Ev) : cnt (ev :: l) = cnt l + (if ev.vcs then 1 else 0) := by
+  unfold cnt; cases h : ev.vcs <;> simp [h]
+
+theorem vcsCall_post {e : PlanEnv} {ev : Ev} {s : PState} (hv : ev.vcs = true) (h : Inv e s) :
+    Post e (vcsCall e ev s) := by
+  refine ⟨fun ho => ⟨?_, h.2, fun _ hf => ?_⟩, fun _ => h.2⟩
+  · simp [vcsCall, cnt_cons, hv, h.1]
+  · simp only [vcsCall] at ho
+    rw [← h.1] at hf
+    simp [hf] at ho
+
+theorem vcsCall_inv_swal {e : PlanEnv} {ev : Ev} {s : PState} (hv : ev.vcs = true)
+    (hs : ev.swal = true) (h : Inv e s) : Inv e (vcsCall e ev s).1 :=
+  ⟨by simp [vcsCall, cnt_cons, hv, h.1], h.2, fun _ _ => hs⟩
+
+theorem push_inv {e : PlanEnv} {ev : Ev} {s : PState} (hv : ev.vcs = false) (h : Inv e s) :
+    Inv e { evs := ev :: s.evs, n := s.n } :=
+  ⟨by simp [cnt_cons, hv, h.1], h.2, fun h' => by simp [hv] at h'⟩
+
+theorem isUsable_inv {e : PlanEnv} {s : PState} (h : Inv e s) : Inv e (isUsable e s).1 := by
+  unfold isUsable
+  split
+  · exact h
+  · exact vcsCall_inv_swal rfl rfl h
+
+theorem getRemote_inv {e : PlanEnv} {s : PState} (h : Inv e s) : Inv e (getRemote e s).1 := by
+  have h1 := vcsCall_inv_swal (e := e) (ev := .cmd "ls_branches") rfl rfl h
+  unfold getRemote
+  split
+  · simp only []
+    split
+    · exact h1
+    · split
+      · exact h1
+      · exact vcsCall_inv_swal rfl rfl h1
+  · exact vcsCall_inv_swal rfl rfl h
+
+theorem getTags_post {e : PlanEnv} {f b : Bool} {s : PState} (h : Inv e s) :
+    Post e (getTags e f b s) := by
+  unfold getTags
+  have h1 := isUsable_inv h
+  generalize isUsable e s = r at *
+  obtain ⟨s1, u⟩ := r
+  simp only at h1 ⊢
+  split
+  · exact .of_inv h1
+  · cases f
+    · exact vcsCall_post rfl h1
+    · have h2 := getRemote_inv h1
+      generalize getRemote e s1 = r at *
+      obtain ⟨sa, rem⟩ := r
+      simp only at h2
+      cases rem
+      · exact vcsCall_post rfl h2
+      · simp only [if_true]
+        have h3 := vcsCall_post (ev := .cmd "fetch") rfl h2
+        generalize vcsCall e (.cmd "fetch") sa = r at *
+        obtain ⟨sb, o⟩ := r
+        cases o
+        · exact vcsCall_post rfl (h3.1 rfl)
+        · exact .of_pre (h3.2 rfl)
+
+theorem addAll_post {e : PlanEnv} {l : List Str} {s : PState} (h : Inv e s) :
+    Post e (addAll e l s) := by
+  induction l generalizing s with
+  | nil => exact .of_inv h
+  | cons p ps ih =>
+    unfold addAll
+    have h1 := vcsCall_post (ev := .add p) rfl h
+    generalize vcsCall e (.add p) s = r at *
+    obtain ⟨s1, o⟩ := r
+    cases o
+    · exact ih (h1.1 rfl)
+    · exact .of_pre (h1.2 rfl)
+
+theorem Outcome.failed_of_beq {o : Outcome} (h : (o == Outcome.failed) = true) : o = .failed := by
+  cases o <;> simp_all
+
+theorem commitPhase_post' {e : PlanEnv} {c : PlanCfg} {s : PState} (hI : Inv e s)
+    (r : PState × Outcome) (h : commitPhase e c s = r) : Post e r := by
+  unfold commitPhase at h
+  extract_lets s0 at h
+  have h0 : Inv e s0 := by
+    simp only [s0]; split
+    · exact push_inv rfl hI
+    · exact hI
+  clear_value s0
+  split at h
+  · subst h; exact .of_pre h0.pre
+  split at h
+  rename_i s1 o1 hadd
+  have h1 := addAll_post (l := e.files) h0
+  rw [hadd] at h1
+  split at h
+  · rename_i ho; subst h; exact .of_pre (h1.2 (Outcome.failed_of_beq ho))
+  rename_i ho
+  replace h1 := h1.1 (Outcome.ok_of_not_failed ho)
+  split at h
+  rename_i s2 o2 hcm
+  have h2 := vcsCall_post (ev := .cmd "commit") rfl h1
+  rw [hcm] at h2
+  split at h
+  · rename_i ho; subst h; exact .of_pre (h2.2 (Outcome.failed_of_beq ho))
+  rename_i ho
+  replace h2 := h2.1 (Outcome.ok_of_not_failed ho)
+  extract_lets s3 at h
+  have h3 : Inv e s3 := by
+    simp only [s3]; split
+    · exact push_inv rfl h2
+    · exact h2
+  clear_value s3
+  split at h
+  · subst h; exact .of_pre h3.pre
+  split at h
+  rename_i s4 o4 htag
+  have h4 : Post e (s4, o4) := by
+    split at htag
+    · rw [← htag]; exact vcsCall_post rfl h3
+    · rw [← htag]; exact .of_inv h3
+  split at h
+  · rename_i ho; subst h; exact .of_pre (h4.2 (Outcome.failed_of_beq ho))
+  rename_i ho
+  replace h4 := h4.1 (Outcome.ok_of_not_failed ho)
+  split at h
+  · split at h
+    rename_i s5 rem hrem
+    have h5 := getRemote_inv h4
+    rw [hrem] at h5
+    split at h
+    · rw [← h]; exact vcsCall_post rfl h5
+    · subst h; exact .of_inv h5
+  · subst h; exact .of_inv h4
+
+theorem commitPhase_post {e : PlanEnv} {c : PlanCfg} {s : PState} (hI : Inv e s) :
+    Post e (commitPhase e c s) := commitPhase_post' hI _ rfl
+
+/-- either the whole trace is fine, or everything before its last event is and the exit code
+    is 1 -/
+def PlanPost (e : PlanEnv) (r : List Ev × Nat) : Prop :=
+  okRev e.failAt r.1.reverse ∨ (okRev e.failAt r.1.reverse.tail ∧ r.2 = 1)
+
+theorem PlanPost.of_pre {e : PlanEnv} {s : PState} (h : Pre e s) :
+    PlanPost e (s.evs.reverse, 1) := .inr ⟨by simpa [Pre] using h, rfl⟩
+theorem PlanPost.of_inv {e : PlanEnv} {s : PState} {code : Nat} (h : Inv e s) :
+    PlanPost e (s.evs.reverse, code) := .inl (by simpa using h.2)
+
+theorem plan_post' (c0 : PlanCfg) (a : PlanCli) (e : PlanEnv) (r : List Ev × Nat)
+    (h : plan c0 a e = r) : PlanPost e r := by
+  unfold plan at h
+  split at h
+  · subst h; exact .inl (by simp [okRev])
+  rename_i c hc
+  extract_lets s0 at h
+  have hI0 : Inv e s0 := ⟨rfl, trivial⟩
+  clear_value s0
+  split at h
+  rename_i s1 o1 h1
+  have p1 : Post e (s1, o1) := by
+    split at h1
+    · rw [← h1]; exact .of_inv hI0
+    · rw [← h1]; exact getTags_post hI0
+  clear h1
+  split at h
+  · rename_i ho; subst h; exact .of_pre (p1.2 (Outcome.failed_of_beq ho))
+  rename_i ho
+  replace p1 := p1.1 (Outcome.ok_of_not_failed ho)
+  split at h
+  · subst h; exact .of_inv p1
+  split at h
+  rename_i s2 o2 h2
+  have p2 : Post e (s2, o2) := by
+    split at h2
+    · rw [← h2]; exact getTags_post p1
+    · rw [← h2]; exact .of_inv p1
+  clear h2
+  split at h
+  · rename_i ho; subst h; exact .of_pre (p2.2 (Outcome.failed_of_beq ho))
+  rename_i ho
+  replace p2 := p2.1 (Outcome.ok_of_not_failed ho)
+  split at h
+  · subst h; exact .of_inv p2
+  split at h
+  · subst h; exact .of_inv p2
+  split at h
+  rename_i s3 usable h3
+  have p3 : Inv e s3 := by
+    split at h3
+    · have := isUsable_inv p2; rw [h3] at this; exact this
+    · simp only [Prod.mk.injEq] at h3; rw [← h3.1]; exact p2
+  clear h3
+  split at h
+  rename_i s4 o4 h4
+  have p4 : Post e (s4, o4) := by
+    split at h4
+    · rw [← h4]; exact vcsCall_post rfl p3
+    · rw [← h4]; exact .of_inv p3
+  clear h4
+  split at h
+  · rename_i ho; subst h; exact .of_pre (p4.2 (Outcome.failed_of_beq ho))
+  rename_i ho
+  replace p4 := p4.1 (Outcome.ok_of_not_failed ho)
+  split at h
+  · subst h; exact .of_inv p4
+  split at h
+  · subst h; exact .of_inv p4
+  extract_lets s5 at h
+  have p5 : Inv e s5 := push_inv rfl p4
+  clear_value s5
+  split at h
+  · subst h; exact .of_inv p5
+  split at h
+  rename_i s6 o6 h6
+  have p6 := commitPhase_post (c := c) p5
+  rw [h6] at p6
+  subst h
+  cases o6
+  · exact .of_inv (p6.1 rfl)
+  · exact .of_pre (p6.2 rfl)
+
+theorem plan_post (c0 : PlanCfg) (a : PlanCli) (e : PlanEnv) : PlanPost e (plan c0 a e) :=
+  plan_post' c0 a e _ rfl
+
+theorem cnt_eq_rev (l : List Ev) : (l.reverse.filter Ev.vcs).length = cnt l := by
+  simp [cnt, List.filter_reverse]
+
+theorem okRev_get {f : Option Nat} {k : Nat} (hk : f = some k) {l : List Ev} (h : okRev f l)
+    {ev : Ev} (hev : (l.reverse.filter Ev.vcs)[k]? = some ev) : ev.swal = true := by
+  induction l with
+  | nil => simp at hev
+  | cons x l ih =>
+    simp only [List.reverse_cons, List.filter_append] at hev
+    have hlen := cnt_eq_rev l
+    by_cases hlt : k < cnt l
+    · rw [List.getElem?_append_left (by omega)] at hev
+      exact ih h.1 hev
+    · rw [List.getElem?_append_right (by omega)] at hev
+      cases hx : x.vcs
+      · simp [hx] at hev
+      · simp only [hx, List.filter_cons, if_true, List.filter_nil] at hev
+        obtain ⟨hi, hxe⟩ := List.getElem?_eq_some_iff.1 hev
+        rw [List.getElem_singleton] at hxe
+        have hk' : k = cnt l := by
+          simp only [List.length_cons, List.length_nil] at hi
+          omega
+        subst hxe
+        exact h.2 hx (hk' ▸ hk)
+
+theorem stop_core {f : Option Nat} {k : Nat} (hk : f = some k) {tr : List Ev} {code : Nat}
+    (h : okRev f tr.reverse ∨ (okRev f tr.reverse.tail ∧ code = 1)) {ev : Ev}
+    (hev : (tr.filter Ev.vcs)[k]? = some ev) (hns : ev.swal = false) :
+    tr.getLast? = some ev ∧ code = 1 := by
+  rcases h with h | ⟨h, hcode⟩
+  · have := okRev_get hk h (by simpa using hev)
+    simp [hns] at this
+  · refine ⟨?_, hcode⟩
+    rcases List.eq_nil_or_concat tr with rfl | ⟨L, x, rfl⟩
+    · simp at hev
+    · simp only [List.concat_eq_append, List.reverse_append, List.reverse_cons, List.reverse_nil,
+        List.nil_append, List.cons_append, List.tail_cons] at h
+      simp only [List.concat_eq_append, List.filter_append] at hev
+      have hlen : (L.filter Ev.vcs).length = cnt L.reverse := by
+        simp [cnt, List.filter_reverse]
+      by_cases hlt : k < cnt L.reverse
+      · rw [List.getElem?_append_left (by omega)] at hev
+        have := okRev_get hk h (by simpa using hev)
+        simp [hns] at this
+      · rw [List.getElem?_append_right (by omega)] at hev
+        cases hx : x.vcs
+        · simp [hx] at hev
+        · simp only [hx, List.filter_cons, if_true, List.filter_nil] at hev
+          obtain ⟨hi, hxe⟩ := List.getElem?_eq_some_iff.1 hev
+          rw [List.getElem_singleton] at hxe
+          subst hxe
+          simp
+
 end BV
